@@ -58,7 +58,7 @@ var Check = &run.Check{
 	Run: runCase,
 }
 
-var opts = javagen.Opts{ExoticNames: true, MinFiles: 2, MaxFiles: 6, MaxMethods: 5, MaxParams: 3, MaxFields: 4, Interfaces: true, Generics: true, Annotations: true, Ctors: true,
+var opts = javagen.Opts{AnonClasses: true, AccessorNames: true, ExoticNames: true, MinFiles: 2, MaxFiles: 6, MaxMethods: 5, MaxParams: 3, MaxFields: 4, Interfaces: true, Generics: true, Annotations: true, Ctors: true,
 	Bodies: true, MaxStmts: 6, MaxSites: 18, Shadowing: true, SuffixImports: true, SameNameTwoPkgs: true, Lambdas: true}
 
 type srcFile struct {
